@@ -2,7 +2,8 @@
    lemma from Lemmas.v and followed by Print Assumptions.  Cells are of an
    arbitrary type A with a missing cell [miss]: one optional value, or the
    block of values sharing a sample when there are trailing dimensions. *)
-From CfdmV Require Import Common.Base C06.Model C06.Spec C06.Lemmas.
+From CfdmV Require Import Common.Base C06.Model C06.Spec C06.Lemmas C06.SubspaceLemmas.
+From CfdmV Require C03.Model.
 
 (* Contiguous ragged array (CF 9.3.3).  For EVERY count vector whose entries
    fit the element dimension - zeros allowed, any length, any sum - the
@@ -111,84 +112,176 @@ Theorem C06_gathered_decode_example :
 Proof. exact gathered_example. Qed.
 Print Assumptions C06_gathered_decode_example.
 
+(* ---- Field.compress then reading ----
+   [covers w c r]: c is an admissible count for the row r of width w, i.e.
+   no value of r lies beyond c and c <= w.  Every array on the field's axes
+   (the field data and each construct spanning the same axes) is packed with
+   the same counts. *)
+
+(* The counts that the repaired Field.compress derives - the largest derived
+   count over the field data and EVERY construct spanning the same axes
+   (handoff/C06-fix2-1.diff) - cover the field data and each of those
+   constructs.  No guard is left: before that repair the counts were those of
+   the first auxiliary coordinate and a value beyond them was dropped
+   (Refuted.C06_old_compress_beyond_count_refuted). *)
+Theorem C06_compress_counts_cover :
+  forall (V : Type) n w (rows : list (list (option V))) others,
+  rect n w rows -> Forall (rect n w) others ->
+  Forall2 (covers w) (derive_counts rows others) rows /\
+  Forall (fun o => Forall2 (covers w) (derive_counts rows others) o) others.
+Proof. exact @derive_counts_cover. Qed.
+Print Assumptions C06_compress_counts_cover.
+
 (* Field.compress('contiguous') then reading the array is the identity on
    values and mask: for every rectangular masked 2-d array [rows] (all-missing
-   rows and missing values inside a row included) and every array [src] the
-   counts are derived from (the field itself, or its first auxiliary
-   coordinate), provided no value of [rows] lies beyond the derived count
-   (guard [fits]; without it: C06_compress_beyond_count_refuted).  The same
-   statement covers every other construct spanning the same axes, which is
-   packed with the same counts.  (Refuted for the pinned code:
+   rows and missing values inside a row included) packed with counts that
+   cover it.  (Refuted for the pinned code:
    Refuted.C06_old_compress_contiguous_refuted, ..._mask_lost_refuted.) *)
 Theorem C06_compress_uncompress_contiguous :
-  forall (V : Type) w (src rows : list (list (option V))),
-  Forall2 (fits w) src rows ->
-  contiguous_decode None (length rows) w (map derive_count src)
-                    (pack (map derive_count src) rows) = Ok rows.
+  forall (V : Type) w counts (rows : list (list (option V))),
+  Forall2 (covers w) counts rows ->
+  contiguous_decode None (length rows) w counts (pack counts rows) = Ok rows.
 Proof. exact @roundtrip_contiguous. Qed.
 Print Assumptions C06_compress_uncompress_contiguous.
 
-(* ... in particular for the field data itself when the counts come from it *)
-Theorem C06_compress_uncompress_field :
-  forall (V : Type) w (rows : list (list (option V))),
-  Forall (fun r => length r = w) rows ->
-  let '(counts, data) := compress_contiguous rows rows in
-  contiguous_decode None (length rows) w counts data = Ok rows.
-Proof. exact @roundtrip_contiguous_field. Qed.
-Print Assumptions C06_compress_uncompress_field.
-
-(* Field.compress('indexed') then reading the array is the identity, under
-   the same guard; features without any value are simply absent from the
-   index variable.  (Refuted for the pinned decoder.) *)
+(* Field.compress('indexed') then reading the array is the identity; features
+   without any value are simply absent from the index variable.  (Refuted for
+   the pinned decoder.) *)
 Theorem C06_compress_uncompress_indexed :
-  forall (V : Type) w (src rows : list (list (option V))),
-  Forall2 (fits w) src rows ->
-  indexed_decode None (length rows) w (index_of_counts 0 (map derive_count src))
-                 (pack (map derive_count src) rows) = Ok rows.
+  forall (V : Type) w counts (rows : list (list (option V))),
+  Forall2 (covers w) counts rows ->
+  indexed_decode None (length rows) w (index_of_counts 0 counts) (pack counts rows) = Ok rows.
 Proof. exact @roundtrip_indexed. Qed.
 Print Assumptions C06_compress_uncompress_indexed.
 
 Theorem C06_compress_uncompress_example :
-  exists (rows : list (list (option Z))),
-    Forall2 (fits 3) rows rows /\ In [None; None; None] rows /\ In [Some 1; None; Some 3]%Z rows.
+  exists (rows aux : list (list (option Z))),
+    rect 3 3 rows /\ Forall (rect 3 3) [aux] /\
+    In [None; None; None] rows /\ In [Some 1; None; Some 3]%Z rows /\
+    derive_counts rows [aux] = [3; 2; 1]%nat.
 Proof. exact roundtrip_example. Qed.
 Print Assumptions C06_compress_uncompress_example.
 
-(* Field.compress('indexed_contiguous').  Full statement (NOT proved here):
-     forall rows src : features x profiles x elements, rectangular, fits ->
-     let '(counts, index, data) := compress_ic src rows in
-     ic_decode None nfeat nprof w counts index data = Ok rows.
-   Proved part: the profiles that are not stored are exactly each feature's
-   trailing empty ones, so every profile keeps its position (the pinned code
-   dropped every empty profile: Refuted.C06_old_compress_ic_refuted), and the
-   last stored profile is non-empty.  Together with
-   C06_indexed_contiguous_decode this leaves the arithmetic of the sample
-   offsets, which is carried by the per-run correspondence (KCompress3 cases:
-   count and index variables, compressed data and uncompressed array of the
-   implementation against compress_ic / ic_decode) and by the round-trip
-   oracle on the implementation. *)
-Theorem C06_compress_ic_profiles_partial :
+(* Field.compress('indexed_contiguous') then reading the array is the identity
+   on values and mask - the full round trip: for EVERY 3-d masked array
+   (features x profiles x elements; empty profiles anywhere, empty features,
+   missing values inside a profile) whose profiles are covered by the counts
+   [cs].  The count variable holds, feature by feature, the counts of the
+   profiles up to the feature's last non-empty one; the index variable names
+   the feature of each stored profile.  (Refuted for the pinned code, which
+   dropped every empty profile: Refuted.C06_old_compress_ic_refuted.) *)
+Theorem C06_compress_uncompress_indexed_contiguous :
+  forall (V : Type) nprof w cs (rows : list (list (list (option V)))),
+  covers3 nprof w cs rows ->
+  let '(counts, index, data) := compress_ic cs rows in
+  ic_decode None (length rows) nprof w counts index data = Ok rows.
+Proof. exact @roundtrip_ic. Qed.
+Print Assumptions C06_compress_uncompress_indexed_contiguous.
+
+Theorem C06_compress_uncompress_indexed_contiguous_example :
+  exists (rows : list (list (list (option Z)))) cs,
+    covers3 3 2 cs rows /\
+    cs = [[0; 1; 2]; [2; 0; 0]]%nat /\
+    compress_ic cs rows = ([0; 1; 2; 2]%nat, [0; 0; 0; 1], [Some 3; Some 5; Some 6; Some 7; Some 8])%Z.
+Proof. exact roundtrip_ic_example. Qed.
+Print Assumptions C06_compress_uncompress_indexed_contiguous_example.
+
+(* Which profiles are stored: exactly those up to each feature's last
+   non-empty one, so every profile keeps its position, and no shorter prefix
+   would do. *)
+Theorem C06_compress_ic_profiles :
   forall cs, firstn (n_profiles cs) cs ++ repeat 0%nat (length cs - n_profiles cs) = cs.
 Proof. exact n_profiles_trim. Qed.
-Print Assumptions C06_compress_ic_profiles_partial.
+Print Assumptions C06_compress_ic_profiles.
 
 Theorem C06_compress_ic_last_profile_nonempty :
   forall cs n, n_profiles cs = S n -> nth n cs 0%nat <> 0%nat.
 Proof. exact n_profiles_last_nonempty. Qed.
 Print Assumptions C06_compress_ic_last_profile_nonempty.
 
-(* Open finding (known_findings.d/C06.json,
-   compress:values-beyond-auxiliary-count-dropped): without the guard the
-   round trip is not the identity - the counts are those of the auxiliary
-   coordinate and a field value beyond them is dropped. *)
-Theorem C06_compress_beyond_count_refuted :
-  exists w (src rows : list (list (option Z))),
-    Forall (fun r => length r = w) src /\ Forall (fun r => length r = w) rows /\
-    length src = length rows /\
-    contiguous_decode None (length rows) w (map derive_count src)
-                      (pack (map derive_count src) rows) <> Ok rows.
-Proof. exact compress_beyond_count_refuted. Qed.
-Print Assumptions C06_compress_beyond_count_refuted.
+(* ---- file level ----
+   The writer puts the compressed data on the sample dimension and the count
+   and index variables of the compressed array in the file, unchanged (checked
+   on every run by reading the written file with netCDF4-python).  Decoding
+   these variables with the independent CF decoder of Spec.v (9.3.3 / 9.3.4 /
+   9.3.5, written sample by sample) gives back every element of the field -
+   for all j, also beyond the largest count, where both sides are missing: the
+   element dimension a file can record is the largest count, the rest of the
+   array is missing. *)
+Theorem C06_file_decode_contiguous :
+  forall (V : Type) w counts (rows : list (list (option V))),
+  Forall2 (covers w) counts rows ->
+  forall i j, (i < length rows)%nat ->
+    contig_spec None counts (pack counts rows) i j = nth j (nth i rows []) None.
+Proof. exact @file_decode_contiguous. Qed.
+Print Assumptions C06_file_decode_contiguous.
+
+Theorem C06_file_decode_indexed :
+  forall (V : Type) w counts (rows : list (list (option V))),
+  Forall2 (covers w) counts rows ->
+  forall i j, (i < length rows)%nat ->
+    indexed_spec None (index_of_counts 0 counts) (pack counts rows) i j = nth j (nth i rows []) None.
+Proof. exact @file_decode_indexed. Qed.
+Print Assumptions C06_file_decode_indexed.
+
+Theorem C06_file_decode_indexed_contiguous :
+  forall (V : Type) nprof w cs (rows : list (list (list (option V)))),
+  covers3 nprof w cs rows ->
+  let '(counts, index, data) := compress_ic cs rows in
+  forall i j k, (i < length rows)%nat -> (j < nprof)%nat ->
+    ic_spec None counts index data i j k = nth k (nth j (nth i rows []) []) None.
+Proof. exact @file_decode_ic. Qed.
+Print Assumptions C06_file_decode_indexed_contiguous.
+
+(* ---- subspaces ----
+   CompressedArray.__getitem__ uncompresses the whole array and indexes it
+   orthogonally.  For ANY shape, any per-axis positions and any array: the
+   selection has one element per combination of positions, and element ks (C
+   order) is the element of the uncompressed array at the selected position
+   of every axis ... *)
+Theorem C06_subspace :
+  forall (B : Type) (d : B) shape pos (flat : list B),
+  length (orth_take d shape pos flat) = prod (map (@length nat) pos) /\
+  forall ks, in_shape ks (map (@length nat) pos) ->
+    nth_error (orth_take d shape pos flat) (ravel (map (@length nat) pos) ks)
+    = Some (nth (ravel shape (pick pos ks)) flat d).
+Proof. intros. split; [apply orth_take_length|intros; apply orth_take_nth; assumption]. Qed.
+Print Assumptions C06_subspace.
+
+(* ... it is the orthogonal selection of property C03 (nested arrays, one
+   axis after the other; independent of the order of the axes by
+   C03.Props.C03_any_order) ... *)
+Theorem C06_subspace_is_C03_selection :
+  forall shape pos (flat : list (option Z)),
+  length flat = prod shape -> pos_in_shape pos shape ->
+  C03.Model.flatten (C03.Model.orth_take pos (C03.Model.reshape shape flat))
+  = orth_take None shape pos flat.
+Proof. exact orth_take_is_c03. Qed.
+Print Assumptions C06_subspace_is_C03_selection.
+
+(* ... every index (integer, slice with a non-zero step, integer list, all
+   possibly negative) selects positions of its axis ... *)
+Theorem C06_subspace_positions_in_range :
+  forall n i, valid_index n i -> Forall (fun p => (p < n)%nat) (axis_positions n i).
+Proof. exact axis_positions_in_range. Qed.
+Print Assumptions C06_subspace_positions_in_range.
+
+(* ... and end to end for a contiguous ragged array: element (k0, k1) of
+   d[i0, i1] is the element the CF conventions define at the positions that
+   i0 and i1 select, for every count vector and every pair of indices. *)
+Theorem C06_subspace_contiguous :
+  forall (A : Type) (miss : A) nrows w counts (data : list A) i0 i1,
+  Forall (fun c => (c <= w)%nat) counts ->
+  valid_index nrows i0 -> valid_index w i1 ->
+  exists u, contiguous_decode miss nrows w counts data = Ok u /\
+    let p0 := axis_positions nrows i0 in
+    let p1 := axis_positions w i1 in
+    let s := subspace miss [nrows; w] [i0; i1] (concat u) in
+    length s = (length p0 * length p1)%nat /\
+    forall k0 k1, (k0 < length p0)%nat -> (k1 < length p1)%nat ->
+      nth (k0 * length p1 + k1) s miss = contig_spec miss counts data (nth k0 p0 0%nat) (nth k1 p1 0%nat).
+Proof. exact @subspace_contiguous. Qed.
+Print Assumptions C06_subspace_contiguous.
 
 (* The underlying array stays compressed until assigned to: over ANY history
    of reads (array, subspace, copy) the compressed source is unchanged ... *)
